@@ -287,14 +287,24 @@ def judge(desc, env):
         o = v["observed"]
         if o.get("reader") in located:
             o["writers"] = located[o["reader"]]
-        elif v["class"] == "report-depends-on-schedule" and o.get("reader") and o.get("before") and o.get("ref") in ("alone", "after-canonical-predecessors") and done < 4:
+        elif v["class"] == "report-depends-on-schedule" and o.get("reader") and o.get("before") and o.get("ref") in ("alone", "after-canonical-predecessors", "canonical") and done < 4:
             done += 1
             d = copy.deepcopy(desc)
             d["schedules"] = []
             d["want_alone"] = False
             sch = desc["schedules"][o["schedule"]]
-            pre = (R.get("dep_preds") or {}).get(o["reader"], []) if o.get("ref") != "alone" else []
-            refv = R["alone"].get(o["reader"]) if o.get("ref") == "alone" else (R.get("dep") or {}).get(o["reader"])
+            if o.get("ref") == "alone":
+                pre, refv = [], R["alone"].get(o["reader"])
+            elif o.get("ref") == "canonical":
+                # reference = the canonical pass: its earlier-sub-phase predecessors stay, the rest
+                # of what ran before the reader in the failing schedule is searched for the writers
+                c0 = R["schedules"][0]
+                cr = c0["passes"][0]["ran"]
+                ps = set(preds(c0["meta"], cr, o["reader"]))
+                pre = [x for x in cr if x in ps]
+                refv = c0["passes"][0]["V"].get(o["reader"], [])
+            else:
+                pre, refv = (R.get("dep_preds") or {}).get(o["reader"], []), (R.get("dep") or {}).get(o["reader"])
             d["localize"] = {
                 "reader": o["reader"],
                 "preds": pre,
